@@ -211,6 +211,31 @@ func applyTxn(b *blk, op Op) {
 		if k != nil {
 			k.open = false
 		}
+	case "sync":
+		// state sync inside a round: the complete state of the previous round is merged into the block's
+		// trie from a separate store and the block returns to that root (whatever it deleted locally is
+		// referenced again)
+		if k != nil || anyOpen() || len(b.prevRoot) == 0 {
+			return
+		}
+		donor := util.NewMemoryNodeDB()
+		set, missing := reachSet(b.prior, b.prevRoot)
+		if missing > 0 {
+			return
+		}
+		keys := make([]string, 0, len(set))
+		for h := range set {
+			keys = append(keys, h)
+		}
+		sort.Strings(keys)
+		for _, h := range keys {
+			n, err := b.prior.GetNode(util.Key(h))
+			if err != nil {
+				return
+			}
+			donor.PutNode(util.Key(h), n.CloneNode())
+		}
+		m.MergeDB(donor, b.prevRoot, nil)
 	}
 }
 
